@@ -159,6 +159,56 @@ let run_lsrouter (parts : string list) : string =
   | Some vs -> "start=ok" ^ String.concat "" (List.mapi (fun i v -> Printf.sprintf " s%d=%d" i (if v then 1 else 0)) vs)
 
 let () = register "lsrouter" run_lsrouter
+(* kind uphistory: several entries, ONE server, a sequence of exchanges (upr_history_case, no resumption state) *)
+let run_uphistory (parts : string list) : string =
+  let f = fields parts in
+  let n = int_of_string (fld f "n") in
+  let split = (match fld_opt f "split" with Some v -> int_of_string v | None -> 0) in
+  let srv = fld f "srv" in
+  let path = if srv = "https" || srv = "h3" then "/dns-query" else "" in
+  let entry i =
+    let g k = fld f (k ^ string_of_int i) in
+    let o = { o_ca = g "ca" = "1"; o_cert_key = false; o_insecure = g "ins" = "1"; o_verify_client = false } in
+    { upc_tag = bytes_of_str ("u" ^ string_of_int i);
+      upc_addr = bytes_of_str (g "st" ^ "://" ^ fld f "name" ^ ":61234" ^ path);
+      upc_dial_addr = bytes_of_str "127.0.0.1:61234"; upc_tls = o } in
+  let rec range a b = if a >= b then [] else a :: range (a + 1) b in
+  let groups = if split > 0 && split < n then [range 0 split; range split n] else [range 0 n] in
+  let steps = List.map (fun s -> nat_of_int (int_of_string s)) (String.split_on_char ',' (fld f "steps")) in
+  match upr_history_case SessNone (List.map (List.map entry) groups) steps (cert_kind_of (fld f "peer")) with
+  | None -> "start=err"
+  | Some vs -> "start=ok" ^ String.concat "" (List.mapi (fun i v -> Printf.sprintf " t%d=%s" i (if v then "ok" else "fail")) vs)
+
+(* kind resolve: the dial target is a NAME, resolved per connection (rs_case) *)
+let run_resolve (parts : string list) : string =
+  let f = fields parts in
+  let url = hexf f "url" and da = hexf f "da" in
+  let name = bytes_of_str (fld f "name") in
+  let a1 = bytes_of_str "127.0.0.1" and a2 = bytes_of_str "127.0.0.2" in
+  let scen = fld f "scen" in
+  let table (k : nat) : n list list =
+    let k = int_of_nat k in
+    (match scen with
+     | "move" -> if k <= 1 then [a1] else [a2]
+     | "late" -> if k = 0 then [] else [a1]
+     | _ -> [a2; a1]) in
+  let letter t =
+    let s = str_of_bytes t in
+    if String.length s > 10 && String.sub s 0 10 = "127.0.0.1:" then "a"
+    else if String.length s > 10 && String.sub s 0 10 = "127.0.0.2:" then "b" else "?" in
+  let at k =
+    (match rs_case url da name table (nat_of_int k) with
+     | Some [t] -> letter t
+     | Some (_ :: _ :: _) -> "in"
+     | _ -> "-") in
+  match rs_case url da name table (nat_of_int 0) with
+  | None -> "new=err"
+  | Some _ ->
+    let one k = let a = at k in Printf.sprintf " x%d=%s at%d=%s" k (if a = "-" then "fail" else "ok") k a in
+    "new=ok" ^ one 1 ^ (if scen = "move" then one 2 else "")
+
+let () = register "uphistory" run_uphistory
+let () = register "resolve" run_resolve
 let () = register "addr" run_addr
 let () = register "sockets" run_sockets
 let () = register "tlscfg" run_tlscfg
